@@ -403,8 +403,33 @@ def gen_cases(ctx):
                     yield "wb-frame", ((h, w), sn, fn, ugp, cfg), (lambda sm=sm, fm=fm, ugp=ugp, cfg=cfg: run_wb(None, sm, fm, ugp, cfg))
 
 
+def spec_validation(ctx, m):
+    """the executable Coq specifications (realisable_b, border_exact_b) against the plain-Python oracles"""
+    rng = ctx.rng
+    graphs = list(graphcap.all_multigraphs(4, 4)) + [graphcap.random_multigraph(rng, 6, loops=(i % 3 == 0)) for i in range(40 if not ctx.thorough else 300)]
+    reqs, meta = [], []
+    for (n, edges) in graphs:
+        specs = [[None] * n, [rng.choice([None, None, rng.randint(1, n)]) for _ in range(n)],
+                 [rng.randint(1, max(1, n - 1)) for _ in range(n)], [rng.choice([1, 2])] * n]
+        parts = list(set_partitions(n))
+        if len(parts) > 60:
+            parts = rng.sample(parts, 60)
+        for spec in specs:
+            for labels in parts:
+                reqs.append("SP %s %s %s" % (graph_tok((n, edges)), " ".join(map(str, labels)), sizes_tok(spec)))
+                meta.append(("spec-vs-oracle:realisable_b", (n, edges, labels, spec), oracle_partition(n, edges, labels, spec, {})))
+            if len(edges) <= 7:
+                for pat in graphcap.patterns(len(edges)):
+                    reqs.append("SB %s %s %s" % (graph_tok((n, edges)), " ".join("1" if b else "0" for b in pat), sizes_tok(spec)))
+                    meta.append(("spec-vs-oracle:border_exact_b", (n, edges, pat, spec), oracle_borders(n, edges, pat, spec, {})))
+    outs = m.batch(reqs)
+    for (kind, inp, want), o in zip(meta, outs):
+        ctx.corr(kind, repr(inp), o, "1" if want else "0")
+
+
 def correspond(ctx):
     m = ctx.model("C07")
+    spec_validation(ctx, m)
     reqs, meta = [], []
     for kind, label, thunk in gen_cases(ctx):
         req, out = thunk()
@@ -628,7 +653,6 @@ def search(ctx):
         part_graphs = small + five + [graphcap.random_multigraph(rng, 6) for _ in range(60)]
     else:
         part_graphs = small + rng.sample(five, 60) + [graphcap.random_multigraph(rng, 5) for _ in range(20)]
-    spec_reqs, spec_meta = [], []
 
     # ---- (a) partitions, graph form
     for gi, (n, edges) in enumerate(part_graphs):
@@ -656,9 +680,6 @@ def search(ctx):
                                   {"function": "division_connected_variable_groups", "n": n, "edges": edges,
                                    "group_size": [repr(x) for x in spec], "domains": {str(k): v for k, v in dom.items()},
                                    "partition": list(labels), "expected_realisable": want, "posted_program_sat": got})
-                if not dom and len(spec_reqs) < 40000:
-                    spec_reqs.append("SP %s %s %s" % (graph_tok((n, edges))[2:], " ".join(map(str, labels)), sizes_tok(spec)))
-                    spec_meta.append(("realisable_b", (n, edges, labels, spec), want))
 
     # ---- (b) partitions, grid form (ids come back as a 2-D array)
     for (h, w) in ([(1, 1), (1, 3), (2, 2), (3, 1), (1, 4), (2, 3)] if not thorough else list(graphcap.grid_shapes(6))):
@@ -736,8 +757,6 @@ def search(ctx):
                                    "group_size": [repr(x) for x in spec], "domains": {str(k): v for k, v in dom.items()},
                                    "is_border": [int(b) for b in pat], "expected_sat": want, "posted_program_sat": got})
                 if not dom:
-                    spec_reqs.append("SB %s %s %s" % (graph_tok((n, edges))[2:], " ".join("1" if b else "0" for b in pat), sizes_tok(spec)))
-                    spec_meta.append(("border_exact_b", (n, edges, pat, spec), want))
                     if prim is not None:
                         gd_reqs.append("GD %s %s" % (prim, " ".join("1" if b else "0" for b in pat)))
                         gd_meta.append((n, edges, pat, spec, want))
@@ -788,13 +807,6 @@ def search(ctx):
                               "the GRAPH_DIVISION node posted by the primitive route, read with the operator's defined meaning, differs from the specification",
                               {"n": n, "edges": edges, "group_size": [repr(x) for x in spec], "is_border": [int(b) for b in pat],
                                "expected": want, "operator_on_posted_operands": o})
-    # ---- (f) validation of the Coq specification against the plain-Python oracle
-    if model is not None and spec_reqs:
-        outs = model.batch(spec_reqs)
-        for (kind, inp, want), o in zip(spec_meta, outs):
-            ctx.count("spec-vs-oracle:" + kind)
-            if (o == "1") != want:
-                ctx.mismatches.append({"kind": "spec-vs-oracle:" + kind, "input": repr(inp), "model": o, "impl": want})
 
 
 def replay(ctx, rp):
